@@ -134,6 +134,20 @@ from vlib.runner import HarnessError                                 # noqa: E40
 class RestartableListeningPort(FakeListeningPort):
     requested_port = 0
 
+    def stopListening(self):
+        # reactor.async_stop: like a real tcp.Port, closing finishes on a later reactor turn - the port stays open
+        # (in reactor.listeners) and the returned Deferred pending until the harness calls reactor.finish_stops()
+        if not getattr(self.reactor, "async_stop", False) or self.stopped:
+            return FakeListeningPort.stopListening(self)
+        self.stop_calls += 1
+        for lp, d in self.reactor.pending_stops:
+            if lp is self:
+                return d
+        from twisted.internet import defer
+        d = defer.Deferred()
+        self.reactor.pending_stops.append((self, d))
+        return d
+
     def startListening(self):
         if not self.stopped:
             return
@@ -153,6 +167,20 @@ class RestartableReactor(FakeReactor):
     def __init__(self, *a, **kw):
         FakeReactor.__init__(self, *a, **kw)
         self.restart_log = []
+        self.async_stop = False
+        self.pending_stops = []
+
+    def finish_stops(self):
+        """the 'later reactor turn': every stopListening() in progress completes now"""
+        n = 0
+        while self.pending_stops:
+            lp, d = self.pending_stops.pop(0)
+            lp.stopped = True
+            if lp in self.listeners:
+                self.listeners.remove(lp)
+            n += 1
+            d.callback(None)
+        return n
 
     def _listen(self, port, factory, backlog, interface, unix=None):
         lp = FakeReactor._listen(self, port, factory, backlog, interface, unix)
